@@ -354,4 +354,1008 @@ theorem store_keys_nodup (g : GStore) (fab node c : Nat) (h : (keys g.entries).N
 /-- Non-vacuity: the empty store has distinct keys. -/
 example : (keys GStore.empty.entries).Nodup := by simp [keys, GStore.empty]
 
+/-! ## Group store, whole histories -/
+
+/-- the entry tracking sender `(f, n)`, if any (the first one; by `store_keys_nodup` the only one) -/
+def track : List GEntry → Nat → Nat → Option GEntry
+  | [], _, _ => none
+  | e :: es, f, n => if e.fab = f ∧ e.node = n then some e else track es f n
+
+theorem track_none_iff (es : List GEntry) (f n : Nat) :
+    track es f n = none ↔ (f, n) ∉ keys es := by
+  induction es with
+  | nil => simp [track, keys]
+  | cons e es ih =>
+    unfold track
+    by_cases hk : e.fab = f ∧ e.node = n
+    · simp [hk, keys]
+    · have hne : ¬ ((f, n) = (e.fab, e.node)) := by
+        intro h; apply hk; simp only [Prod.mk.injEq] at h; exact ⟨h.1.symm, h.2.symm⟩
+      simp only [hk, ↓reduceIte, ih, keys, List.map_cons, List.mem_cons, not_or, hne,
+        not_false_eq_true, true_and]
+
+theorem track_some_key {es : List GEntry} {f n : Nat} {e : GEntry} (h : track es f n = some e) :
+    e.fab = f ∧ e.node = n ∧ e ∈ es := by
+  induction es with
+  | nil => simp [track] at h
+  | cons a es ih =>
+    unfold track at h
+    by_cases hk : a.fab = f ∧ a.node = n
+    · simp only [hk, and_self, ↓reduceIte, Option.some.injEq] at h
+      subst h; exact ⟨hk.1, hk.2, by simp⟩
+    · simp only [hk, ↓reduceIte] at h
+      have := ih h
+      exact ⟨this.1, this.2.1, by simp [this.2.2]⟩
+
+/-- a hit: the verdict is the sender's own window verdict, its window advances by exactly that
+step, and every other sender's entry is untouched. -/
+theorem lookupUpdate_track (clk f n c : Nat) :
+    ∀ (es es' : List GEntry) (b : Bool), lookupUpdate clk f n c es = some (es', b) →
+      ∃ e, track es f n = some e ∧ b = (postRecvRoll e.rx c).2 ∧
+        track es' f n = some { e with rx := (postRecvRoll e.rx c).1, lastUsed := clk } ∧
+        ∀ f' n', ¬ (f' = f ∧ n' = n) → track es' f' n' = track es f' n' := by
+  intro es
+  induction es with
+  | nil => intro es' b h; simp [lookupUpdate] at h
+  | cons a es ih =>
+    intro es' b h
+    unfold lookupUpdate at h
+    by_cases hk : a.fab = f ∧ a.node = n
+    · simp only [hk, and_self, ↓reduceIte, Option.some.injEq, Prod.mk.injEq] at h
+      refine ⟨a, by simp [track, hk], h.2.symm, ?_, ?_⟩
+      · rw [← h.1]; simp [track, hk]
+      · intro f' n' hne
+        rw [← h.1]
+        have h1 : ¬ (a.fab = f' ∧ a.node = n') := by
+          intro hh; apply hne; exact ⟨hh.1 ▸ hk.1 ▸ rfl, hh.2 ▸ hk.2 ▸ rfl⟩
+        have h2 : ¬ (f = f' ∧ n = n') := fun hh => hne ⟨hh.1.symm, hh.2.symm⟩
+        simp [track, h1, h2]
+    · simp only [hk, ↓reduceIte] at h
+      cases hr : lookupUpdate clk f n c es with
+      | none => simp [hr] at h
+      | some p =>
+        obtain ⟨es2, b2⟩ := p
+        simp only [hr, Option.some.injEq, Prod.mk.injEq] at h
+        obtain ⟨e, h1, h2, h3, h4⟩ := ih es2 b2 hr
+        refine ⟨e, by simp [track, hk, h1], by rw [← h.2]; exact h2, ?_, ?_⟩
+        · rw [← h.1]; simp [track, hk, h3]
+        · intro f' n' hne
+          rw [← h.1]
+          unfold track
+          by_cases hk' : a.fab = f' ∧ a.node = n'
+          · simp [hk']
+          · simp only [hk', ↓reduceIte]; exact h4 f' n' hne
+
+theorem track_append_new (es : List GEntry) (ne : GEntry) (f n : Nat)
+    (hk : ne.fab = f ∧ ne.node = n) (hnone : track es f n = none) :
+    track (es ++ [ne]) f n = some ne := by
+  induction es with
+  | nil => simp [track, hk]
+  | cons a es ih =>
+    unfold track at hnone
+    by_cases ha : a.fab = f ∧ a.node = n
+    · simp [ha] at hnone
+    · simp only [ha, ↓reduceIte] at hnone
+      simp only [List.cons_append, track, ha, ↓reduceIte]
+      exact ih hnone
+
+theorem track_append_other (es : List GEntry) (ne : GEntry) (f' n' : Nat)
+    (h : ¬ (ne.fab = f' ∧ ne.node = n')) : track (es ++ [ne]) f' n' = track es f' n' := by
+  induction es with
+  | nil => simp [track, h]
+  | cons a es ih =>
+    simp only [List.cons_append, track]
+    split
+    · rfl
+    · exact ih
+
+theorem track_set_new (es : List GEntry) (i : Nat) (ne : GEntry) (f n : Nat) (hi : i < es.length)
+    (hk : ne.fab = f ∧ ne.node = n) (hnone : track es f n = none) :
+    track (es.set i ne) f n = some ne := by
+  induction es generalizing i with
+  | nil => simp at hi
+  | cons a es ih =>
+    unfold track at hnone
+    by_cases ha : a.fab = f ∧ a.node = n
+    · simp [ha] at hnone
+    · simp only [ha, ↓reduceIte] at hnone
+      cases i with
+      | zero => simp [track, hk]
+      | succ i =>
+        simp only [List.set_cons_succ, track, ha, ↓reduceIte]
+        exact ih i (by simpa using hi) hnone
+
+theorem mem_keys_of_mem {es : List GEntry} {v : GEntry} (h : v ∈ es) : (v.fab, v.node) ∈ keys es := by
+  simp only [keys, List.mem_map]; exact ⟨v, h, rfl⟩
+
+/-- replacing the entry at index `i` (the victim `v`) by an entry of another sender: the victim's
+sender is no longer tracked, every other sender's entry is untouched. -/
+theorem track_set_other (es : List GEntry) (i : Nat) (ne v : GEntry) (f' n' : Nat)
+    (hne : ¬ (ne.fab = f' ∧ ne.node = n')) (hnd : (keys es).Nodup) (hv : es[i]? = some v) :
+    track (es.set i ne) f' n' = if v.fab = f' ∧ v.node = n' then none else track es f' n' := by
+  induction es generalizing i with
+  | nil => simp at hv
+  | cons a es ih =>
+    simp only [keys, List.map_cons, List.nodup_cons] at hnd
+    cases i with
+    | zero =>
+      simp only [List.getElem?_cons_zero, Option.some.injEq] at hv
+      subst hv
+      simp only [List.set_cons_zero, track, hne, ↓reduceIte]
+      by_cases ha : a.fab = f' ∧ a.node = n'
+      · simp only [ha, and_self, ↓reduceIte]
+        apply (track_none_iff es f' n').2
+        rw [← ha.1, ← ha.2]; exact hnd.1
+      · simp [ha]
+    | succ i =>
+      simp only [List.getElem?_cons_succ] at hv
+      have hvm : v ∈ es := List.mem_of_getElem? hv
+      simp only [List.set_cons_succ, track]
+      by_cases ha : a.fab = f' ∧ a.node = n'
+      · have hvn : ¬ (v.fab = f' ∧ v.node = n') := by
+          intro hh
+          apply hnd.1
+          have := mem_keys_of_mem hvm
+          rw [hh.1, hh.2, ← ha.1, ← ha.2] at this; exact this
+        simp [ha, hvn]
+      · simp only [ha, ↓reduceIte]
+        exact ih i hnd.2 hv
+
+/-- `lruIdx` is the FIRST entry of minimal `lastUsed` (what `Iterator::min_by_key` returns). -/
+theorem lruIdx_spec (es : List GEntry) (hne : es ≠ []) :
+    ∃ m, es[lruIdx es]? = some m ∧
+      (∀ (j : Nat) (x : GEntry), es[j]? = some x → m.lastUsed ≤ x.lastUsed) ∧
+      (∀ (j : Nat) (x : GEntry), j < lruIdx es → es[j]? = some x → m.lastUsed < x.lastUsed) := by
+  induction es with
+  | nil => exact absurd rfl hne
+  | cons e es ih =>
+    cases es with
+    | nil =>
+      refine ⟨e, by simp [lruIdx], ?_, ?_⟩
+      · intro j x hj
+        cases j with
+        | zero => simp at hj; subst hj; exact Nat.le_refl _
+        | succ j => simp at hj
+      · intro j x hj; simp [lruIdx] at hj
+    | cons e2 es2 =>
+      obtain ⟨m, hm, hmin, hfirst⟩ := ih (by simp)
+      have hl : lruIdx (e :: e2 :: es2) =
+          if e.lastUsed ≤ m.lastUsed then 0 else lruIdx (e2 :: es2) + 1 := by
+        rw [lruIdx]
+        · simp only [hm]
+        · intro h; simp at h
+      rw [hl]
+      by_cases hle : e.lastUsed ≤ m.lastUsed
+      · simp only [hle, ↓reduceIte]
+        refine ⟨e, by simp, ?_, ?_⟩
+        · intro j x hj
+          cases j with
+          | zero => simp at hj; subst hj; exact Nat.le_refl _
+          | succ j =>
+            simp only [List.getElem?_cons_succ] at hj
+            exact Nat.le_trans hle (hmin j x hj)
+        · intro j x hj; omega
+      · simp only [hle, ↓reduceIte]
+        refine ⟨m, by simpa using hm, ?_, ?_⟩
+        · intro j x hj
+          cases j with
+          | zero => simp at hj; subst hj; omega
+          | succ j =>
+            simp only [List.getElem?_cons_succ] at hj
+            exact hmin j x hj
+        · intro j x hj hx
+          cases j with
+          | zero => simp at hx; subst hx; omega
+          | succ j =>
+            simp only [List.getElem?_cons_succ] at hx
+            exact hfirst j x (by omega) hx
+
+theorem maxEntries_pos : 0 < Consts.maxGroupCtrEntries := by decide
+
+theorem postRecv_hit (g : GStore) (f n c : Nat) (es' : List GEntry) (b : Bool)
+    (hr : lookupUpdate ((g.clock + 1) % U32) f n c g.entries = some (es', b)) :
+    g.postRecv f n c = ({ entries := es', clock := (g.clock + 1) % U32 }, b) := by
+  simp [GStore.postRecv, hr]
+
+theorem postRecv_miss_append (g : GStore) (f n c : Nat)
+    (hr : lookupUpdate ((g.clock + 1) % U32) f n c g.entries = none)
+    (hl : g.entries.length < Consts.maxGroupCtrEntries) :
+    g.postRecv f n c =
+      (GStore.mk (g.entries ++ [GEntry.mk f n (RxState.new c) ((g.clock + 1) % U32)])
+        ((g.clock + 1) % U32), true) := by
+  simp [GStore.postRecv, hr, hl]
+
+theorem postRecv_miss_set (g : GStore) (f n c : Nat)
+    (hr : lookupUpdate ((g.clock + 1) % U32) f n c g.entries = none)
+    (hl : ¬ g.entries.length < Consts.maxGroupCtrEntries) :
+    g.postRecv f n c =
+      (GStore.mk (g.entries.set (lruIdx g.entries) (GEntry.mk f n (RxState.new c) ((g.clock + 1) % U32)))
+        ((g.clock + 1) % U32), true) := by
+  simp [GStore.postRecv, hr, hl]
+
+/-- One message of the tracked sender itself: the verdict is its own window's verdict and its
+window advances by exactly that step; an untracked sender is admitted trust-first. -/
+theorem store_step_own (g : GStore) (f n c : Nat) :
+    (∀ e, track g.entries f n = some e →
+       (g.postRecv f n c).2 = (postRecvRoll e.rx c).2 ∧
+       ∃ e', track (g.postRecv f n c).1.entries f n = some e' ∧ e'.rx = (postRecvRoll e.rx c).1) ∧
+    (track g.entries f n = none →
+       (g.postRecv f n c).2 = true ∧
+       ∃ e', track (g.postRecv f n c).1.entries f n = some e' ∧ e'.rx = RxState.new c) := by
+  cases hr : lookupUpdate ((g.clock + 1) % U32) f n c g.entries with
+  | some p =>
+    obtain ⟨es', b⟩ := p
+    rw [postRecv_hit g f n c es' b hr]
+    obtain ⟨e0, h1, h2, h3, _⟩ := lookupUpdate_track _ _ _ _ _ _ _ hr
+    refine ⟨?_, ?_⟩
+    · intro e he
+      rw [h1] at he; simp only [Option.some.injEq] at he; subst he
+      exact ⟨h2, _, h3, rfl⟩
+    · intro hn; rw [h1] at hn; simp at hn
+  | none =>
+    have hnone : track g.entries f n = none :=
+      (track_none_iff _ _ _).2 ((lookupUpdate_none _ _ _ _ _).1 hr)
+    refine ⟨?_, ?_⟩
+    · intro e he; rw [hnone] at he; simp at he
+    · intro _
+      by_cases hl : g.entries.length < Consts.maxGroupCtrEntries
+      · rw [postRecv_miss_append g f n c hr hl]
+        exact ⟨rfl, _, track_append_new _ _ f n ⟨rfl, rfl⟩ hnone, rfl⟩
+      · rw [postRecv_miss_set g f n c hr hl]
+        have hne : g.entries ≠ [] := by
+          intro h0; rw [h0] at hl; exact hl maxEntries_pos
+        obtain ⟨m, hm, _, _⟩ := lruIdx_spec g.entries hne
+        have hi : lruIdx g.entries < g.entries.length := by
+          have := List.getElem?_eq_some_iff.1 hm; exact this.1
+        exact ⟨rfl, _, track_set_new _ _ _ f n hi ⟨rfl, rfl⟩ hnone, rfl⟩
+
+/-- One message of ANOTHER sender `(f', n')`: the entry of `(f, n)` is untouched -- or `(f, n)` is
+evicted, and then `(f', n')` was untracked, the store was full and `(f, n)` held the first minimal
+`lastUsed` (`lruIdx_spec`). -/
+theorem store_step_other (g : GStore) (f n f' n' c : Nat) (hne : ¬ (f' = f ∧ n' = n))
+    (hnd : (keys g.entries).Nodup) :
+    track (g.postRecv f' n' c).1.entries f n = track g.entries f n ∨
+    (track (g.postRecv f' n' c).1.entries f n = none ∧ track g.entries f' n' = none ∧
+      Consts.maxGroupCtrEntries ≤ g.entries.length ∧
+      ∃ v, g.entries[lruIdx g.entries]? = some v ∧ v.fab = f ∧ v.node = n) := by
+  have hne' : ¬ (f = f' ∧ n = n') := fun h => hne ⟨h.1.symm, h.2.symm⟩
+  cases hr : lookupUpdate ((g.clock + 1) % U32) f' n' c g.entries with
+  | some p =>
+    obtain ⟨es', b⟩ := p
+    rw [postRecv_hit g f' n' c es' b hr]
+    obtain ⟨_, _, _, _, h4⟩ := lookupUpdate_track _ _ _ _ _ _ _ hr
+    left; exact h4 f n hne'
+  | none =>
+    have hnone : track g.entries f' n' = none :=
+      (track_none_iff _ _ _).2 ((lookupUpdate_none _ _ _ _ _).1 hr)
+    by_cases hl : g.entries.length < Consts.maxGroupCtrEntries
+    · rw [postRecv_miss_append g f' n' c hr hl]
+      left; exact track_append_other _ _ f n hne
+    · rw [postRecv_miss_set g f' n' c hr hl]
+      have hne0 : g.entries ≠ [] := by
+        intro h0; rw [h0] at hl; exact hl maxEntries_pos
+      obtain ⟨v, hv, _, _⟩ := lruIdx_spec g.entries hne0
+      have := track_set_other g.entries (lruIdx g.entries)
+        (GEntry.mk f' n' (RxState.new c) ((g.clock + 1) % U32)) v f n hne hnd hv
+      by_cases hk : v.fab = f ∧ v.node = n
+      · right
+        simp only
+        rw [this]; simp only [hk, and_self, ↓reduceIte, true_and]
+        exact ⟨hnone, by omega, v, hv, hk.1, hk.2⟩
+      · left; simp only; rw [this]; simp [hk]
+
+/-! ### whole histories on the store -/
+
+/-- a group message as the store sees it: (fabric, source node, counter) -/
+abbrev Msg := Nat × Nat × Nat
+
+/-- `GStore.postRecv` folded over a history; returns the final store and the verdict per message -/
+def storeRun : GStore → List Msg → GStore × List Bool
+  | g, [] => (g, [])
+  | g, m :: ms =>
+    let r := g.postRecv m.1 m.2.1 m.2.2
+    let o := storeRun r.1 ms
+    (o.1, r.2 :: o.2)
+
+theorem storeRun_append (a b : List Msg) : ∀ g : GStore,
+    storeRun g (a ++ b) =
+      ((storeRun (storeRun g a).1 b).1, (storeRun g a).2 ++ (storeRun (storeRun g a).1 b).2) := by
+  induction a with
+  | nil => intro g; simp [storeRun]
+  | cons m a ih => intro g; simp only [List.cons_append, storeRun, ih, List.cons_append]
+
+theorem storeRun_keys_nodup (ms : List Msg) : ∀ g : GStore, (keys g.entries).Nodup →
+    (keys (storeRun g ms).1.entries).Nodup := by
+  induction ms with
+  | nil => intro g h; exact h
+  | cons m ms ih => intro g h; exact ih _ (store_keys_nodup g _ _ _ h)
+
+theorem storeRun_capacity (ms : List Msg) : ∀ g : GStore,
+    g.entries.length ≤ Consts.maxGroupCtrEntries →
+    (storeRun g ms).1.entries.length ≤ Consts.maxGroupCtrEntries := by
+  induction ms with
+  | nil => intro g h; exact h
+  | cons m ms ih => intro g h; exact ih _ (store_capacity g _ _ _ h)
+
+/-- projection of a history to one sender: its counters, in order -/
+def own (f n : Nat) : List Msg → List Nat
+  | [] => []
+  | m :: ms => if m.1 = f ∧ m.2.1 = n then m.2.2 :: own f n ms else own f n ms
+
+/-- projection of the verdicts of a run to one sender's messages -/
+def ownV (f n : Nat) : List Msg → List Bool → List Bool
+  | m :: ms, b :: bs => if m.1 = f ∧ m.2.1 = n then b :: ownV f n ms bs else ownV f n ms bs
+  | _, _ => []
+
+/-- the verdicts of ONE window over a sequence of counters (no store, no other senders) -/
+def runW : RxState → List Nat → List Bool
+  | _, [] => []
+  | s, c :: cs => (postRecvRoll s c).2 :: runW (postRecvRoll s c).1 cs
+
+/-- the sender stays tracked (is not evicted) after every message of the history -/
+def StillTracked (f n : Nat) : GStore → List Msg → Prop
+  | _, [] => True
+  | g, m :: ms =>
+    (track (g.postRecv m.1 m.2.1 m.2.2).1.entries f n).isSome ∧
+      StillTracked f n (g.postRecv m.1 m.2.1 m.2.2).1 ms
+
+/-- **Per-sender projection of the store, whole histories.** While a sender stays tracked, its
+verdicts on the store -- under ANY interleaving with other senders, admissions and evictions of
+others included -- are exactly the verdicts of its own window run in isolation over its own
+counters. -/
+theorem store_period (f n : Nat) : ∀ (ms : List Msg) (g : GStore) (e : GEntry),
+    (keys g.entries).Nodup → track g.entries f n = some e → StillTracked f n g ms →
+    ownV f n ms (storeRun g ms).2 = runW e.rx (own f n ms) ∧
+    ∃ e', track (storeRun g ms).1.entries f n = some e' := by
+  intro ms
+  induction ms with
+  | nil => intro g e _ he _; exact ⟨rfl, e, he⟩
+  | cons m ms ih =>
+    intro g e hnd he hst
+    obtain ⟨f', n', c⟩ := m
+    have hnd' := store_keys_nodup g f' n' c hnd
+    simp only [StillTracked] at hst
+    simp only [storeRun, ownV, own]
+    by_cases hk : f' = f ∧ n' = n
+    · obtain ⟨rfl, rfl⟩ := hk
+      obtain ⟨hv, e', he', hrx⟩ := (store_step_own g f' n' c).1 e he
+      simp only [and_self, ↓reduceIte, runW]
+      have := ih _ e' hnd' he' hst.2
+      rw [hv, this.1, hrx]
+      exact ⟨rfl, this.2⟩
+    · simp only [hk, ↓reduceIte]
+      rcases store_step_other g f n f' n' c hk hnd with h | h
+      · exact ih _ e hnd' (by rw [h]; exact he) hst.2
+      · have := hst.1; rw [h.1] at this; simp at this
+
+instance StillTracked.dec (f n : Nat) : ∀ (ms : List Msg) (g : GStore), Decidable (StillTracked f n g ms)
+  | [], _ => isTrue trivial
+  | m :: ms, g => by
+    unfold StillTracked
+    exact @instDecidableAnd _ _ _ (StillTracked.dec f n ms _)
+
+/-- accepted wire values of a verdict stream, newest first (the shape `runG` collects) -/
+def accW : List Nat → List Bool → List Nat → List Nat
+  | c :: cs, b :: bs, w => accW cs bs (if b then c :: w else w)
+  | _, _, w => w
+
+/-- the ghost-instrumented run `runG` collects exactly the values `runW` accepts -/
+theorem runG_accW (cs : List Nat) : ∀ (g : G) (w : List Nat),
+    (runG g w cs).2 = accW cs (runW g.s cs) w := by
+  induction cs with
+  | nil => intro g w; rfl
+  | cons c cs ih =>
+    intro g w
+    simp only [runG, runW, accW]
+    rw [ih, (stepG_erases g c).1, (stepG_erases g c).2]
+
+/-- **A tracking period on the store, from the trust-first admission on** (any reachable store:
+`storeRun_keys_nodup`): the admission is accepted, and while the sender stays tracked its
+verdicts -- whatever other senders do in between -- are those of the isolated window started by
+`RxState.new first`, i.e. of `runG` from `gInit first`. -/
+theorem store_tracking_period (g : GStore) (f n first : Nat) (mid : List Msg)
+    (hnd : (keys g.entries).Nodup) (hun : track g.entries f n = none)
+    (hst : StillTracked f n (g.postRecv f n first).1 mid) :
+    (g.postRecv f n first).2 = true ∧
+    ownV f n mid (storeRun (g.postRecv f n first).1 mid).2 = runW (RxState.new first) (own f n mid) ∧
+    accW (own f n mid) (ownV f n mid (storeRun (g.postRecv f n first).1 mid).2) [first] =
+      (runG (gInit first) [first] (own f n mid)).2 := by
+  obtain ⟨hv, e', he', hrx⟩ := (store_step_own g f n first).2 hun
+  have h := (store_period f n mid _ e' (store_keys_nodup g f n first hnd) he' hst).1
+  rw [hrx] at h
+  refine ⟨hv, h, ?_⟩
+  rw [h, runG_accW]; rfl
+
+/-- **Clause 1 per tracking period, on the store, whole histories**: within one tracking period
+(trust-first admission until eviction) no wire value of the sender is accepted twice, under any
+interleaving with other senders, as long as the sender advanced less than a full 2³² cycle. -/
+theorem store_no_double_accept (g : GStore) (f n first : Nat) (mid : List Msg)
+    (hnd : (keys g.entries).Nodup) (hun : track g.entries f n = none)
+    (hst : StillTracked f n (g.postRecv f n first).1 mid)
+    (hf : first < U32) (hc : ∀ c ∈ own f n mid, c < U32)
+    (hadv : (runG (gInit first) [first] (own f n mid)).1.P - (first + U32) < U32) :
+    (accW (own f n mid) (ownV f n mid (storeRun (g.postRecv f n first).1 mid).2) [first]).Nodup := by
+  rw [(store_tracking_period g f n first mid hnd hun hst).2.2]
+  exact group_no_double_accept first _ hf hc hadv
+
+/-- every tracking period of every history from the empty store: `pre` is any history (with any
+number of senders and evictions) after which the sender is untracked. -/
+theorem history_tracking_period (pre mid : List Msg) (f n first : Nat)
+    (hun : track (storeRun GStore.empty pre).1.entries f n = none)
+    (hst : StillTracked f n ((storeRun GStore.empty pre).1.postRecv f n first).1 mid) :
+    ((storeRun GStore.empty pre).1.postRecv f n first).2 = true ∧
+    ownV f n mid (storeRun ((storeRun GStore.empty pre).1.postRecv f n first).1 mid).2 =
+      runW (RxState.new first) (own f n mid) :=
+  let h := store_tracking_period _ f n first mid
+    (storeRun_keys_nodup pre _ (by simp [keys, GStore.empty])) hun hst
+  ⟨h.1, h.2.1⟩
+
+/-- Non-vacuity: 17 senders on the 16-entry store; sender (1,0) is admitted, 16 others follow (the
+17th evicts (1,0), the least recently heard), (1,0) returns and is admitted trust-first again: its
+old duplicate 5 is accepted anew in the new period -- the verdict streams per period are those of
+fresh windows. -/
+example :
+    let hist : List Msg := (1, 0, 5) :: (1, 0, 6) :: (1, 0, 5) ::
+      ((List.range 16).map fun i => (2, i, 9)) ++ [(1, 0, 5), (1, 0, 5)]
+    (storeRun GStore.empty hist).2 =
+      [true, true, false] ++ List.replicate 16 true ++ [true, false] := by decide
+
+example : track (storeRun GStore.empty [(2, 7, 1)]).1.entries 1 0 = none ∧
+    StillTracked 1 0 ((storeRun GStore.empty [(2, 7, 1)]).1.postRecv 1 0 5).1
+      [(2, 7, 2), (1, 0, 6), (3, 3, 3), (1, 0, 5)] := by decide
+
+/-! ### the evicted sender is the least recently heard one -/
+
+/-- when (1-based position in the history) sender `(f, n)` was last heard; `h` is the history
+NEWEST FIRST; 0 = never -/
+def lastSeen : List Msg → Nat → Nat → Nat
+  | [], _, _ => 0
+  | m :: h, f, n => if m.1 = f ∧ m.2.1 = n then h.length + 1 else lastSeen h f n
+
+theorem lastSeen_le (h : List Msg) (f n : Nat) : lastSeen h f n ≤ h.length := by
+  induction h with
+  | nil => simp [lastSeen]
+  | cons m h ih => simp only [lastSeen, List.length_cons]; split <;> omega
+
+/-- two senders are never "last heard" at the same position -/
+theorem lastSeen_inj (h : List Msg) (f n f' n' : Nat) (h1 : 1 ≤ lastSeen h f n)
+    (he : lastSeen h f n = lastSeen h f' n') : f = f' ∧ n = n' := by
+  induction h with
+  | nil => simp [lastSeen] at h1
+  | cons m h ih =>
+    simp only [lastSeen] at he h1
+    by_cases ha : m.1 = f ∧ m.2.1 = n
+    · by_cases hb : m.1 = f' ∧ m.2.1 = n'
+      · exact ⟨ha.1 ▸ hb.1, ha.2 ▸ hb.2⟩
+      · rw [if_pos ha, if_neg hb] at he
+        have := lastSeen_le h f' n'; omega
+    · by_cases hb : m.1 = f' ∧ m.2.1 = n'
+      · rw [if_neg ha, if_pos hb] at he
+        have := lastSeen_le h f n; omega
+      · rw [if_neg ha, if_neg hb] at he
+        rw [if_neg ha] at h1
+        exact ih h1 he
+
+/-- the store's LRU stamps are the positions at which each tracked sender was last heard
+(`h` = the history so far, newest first) -/
+structure Timed (h : List Msg) (g : GStore) : Prop where
+  clock : g.clock = h.length
+  stamp : ∀ e ∈ g.entries, e.lastUsed = lastSeen h e.fab e.node ∧ 1 ≤ e.lastUsed
+
+theorem timed_empty : Timed [] GStore.empty := ⟨rfl, by simp [GStore.empty]⟩
+
+theorem timed_step (h : List Msg) (g : GStore) (f n c : Nat) (ht : Timed h g)
+    (hnd : (keys g.entries).Nodup) (hlen : h.length + 1 < U32) :
+    Timed ((f, n, c) :: h) (g.postRecv f n c).1 := by
+  have hclk : (g.clock + 1) % U32 = h.length + 1 := by rw [ht.clock]; exact Nat.mod_eq_of_lt hlen
+  have hother : ∀ x : GEntry, x ∈ g.entries → ¬ (x.fab = f ∧ x.node = n) →
+      x.lastUsed = lastSeen ((f, n, c) :: h) x.fab x.node ∧ 1 ≤ x.lastUsed := by
+    intro x hx hk
+    have hk' : ¬ (f = x.fab ∧ n = x.node) := fun hh => hk ⟨hh.1.symm, hh.2.symm⟩
+    simp only [lastSeen, hk', ↓reduceIte]
+    exact ht.stamp x hx
+  have hnew : ∀ x : GEntry, x.fab = f → x.node = n → x.lastUsed = (g.clock + 1) % U32 →
+      x.lastUsed = lastSeen ((f, n, c) :: h) x.fab x.node ∧ 1 ≤ x.lastUsed := by
+    intro x hf hn hl
+    rw [hl, hclk, hf, hn]
+    refine ⟨?_, by omega⟩
+    simp only [lastSeen, and_self, ↓reduceIte]
+  cases hr : lookupUpdate ((g.clock + 1) % U32) f n c g.entries with
+  | some p =>
+    obtain ⟨es', b⟩ := p
+    rw [postRecv_hit g f n c es' b hr]
+    obtain ⟨pre, post, e, h1, h2, h3, h4, _, h6⟩ := lookupUpdate_spec _ _ _ _ _ _ _ hr
+    refine ⟨hclk, ?_⟩
+    intro x hx
+    simp only at hx
+    rw [h6] at hx
+    rw [h1] at hnd
+    simp only [keys, List.map_append, List.map_cons] at hnd
+    have hnd2 := List.nodup_append.1 hnd
+    simp only [List.mem_append, List.mem_cons] at hx
+    rcases hx with hx | hx | hx
+    · exact hother x (by rw [h1]; simp [hx]) (h2 x hx)
+    · subst hx; exact hnew _ h3 h4 rfl
+    · apply hother x (by rw [h1]; simp [hx])
+      intro hk
+      have hin : (e.fab, e.node) ∈ List.map (fun e => (e.fab, e.node)) post := by
+        rw [h3, h4, ← hk.1, ← hk.2]; exact List.mem_map.2 ⟨x, hx, rfl⟩
+      exact (List.nodup_cons.1 hnd2.2.1).1 hin
+  | none =>
+    have hnot := (lookupUpdate_none _ _ _ _ _).1 hr
+    have hall : ∀ x ∈ g.entries, ¬ (x.fab = f ∧ x.node = n) := by
+      intro x hx hk; apply hnot; rw [← hk.1, ← hk.2]; exact mem_keys_of_mem hx
+    by_cases hl : g.entries.length < Consts.maxGroupCtrEntries
+    · rw [postRecv_miss_append g f n c hr hl]
+      refine ⟨hclk, ?_⟩
+      intro x hx
+      simp only [List.mem_append, List.mem_singleton] at hx
+      rcases hx with hx | hx
+      · exact hother x hx (hall x hx)
+      · subst hx; exact hnew _ rfl rfl rfl
+    · rw [postRecv_miss_set g f n c hr hl]
+      refine ⟨hclk, ?_⟩
+      intro x hx
+      rcases mem_set_imp _ _ _ _ hx with hx | hx
+      · subst hx; exact hnew _ rfl rfl rfl
+      · exact hother x hx (hall x hx)
+
+/-- along every history shorter than 2³² the LRU stamps are the true last-heard positions -/
+theorem timed_run (ms : List Msg) : ∀ (h : List Msg) (g : GStore), Timed h g →
+    (keys g.entries).Nodup → h.length + ms.length < U32 →
+    Timed (ms.reverse ++ h) (storeRun g ms).1 := by
+  induction ms with
+  | nil => intro h g ht _ _; simpa [storeRun] using ht
+  | cons m ms ih =>
+    intro h g ht hnd hlen
+    obtain ⟨f, n, c⟩ := m
+    simp only [List.length_cons] at hlen
+    have := ih ((f, n, c) :: h) _ (timed_step h g f n c ht hnd (by omega))
+      (store_keys_nodup g f n c hnd) (by simp only [List.length_cons]; omega)
+    simpa [storeRun] using this
+
+/-- **The evicted sender is the least recently heard one.** In every history (shorter than 2³²
+messages) from the empty store, whenever a message evicts (sender untracked, store full), the
+victim -- the entry at `lruIdx`, the FIRST minimum of `lastUsed` (`lruIdx_spec`) -- is the
+tracked sender that was heard longest ago, strictly before every other tracked sender. -/
+theorem evicted_is_least_recently_heard (pre : List Msg) (hlen : pre.length < U32) :
+    let g := (storeRun GStore.empty pre).1
+    g.entries ≠ [] →
+    ∃ v, g.entries[lruIdx g.entries]? = some v ∧
+      ∀ e ∈ g.entries, ¬ (e.fab = v.fab ∧ e.node = v.node) →
+        lastSeen pre.reverse v.fab v.node < lastSeen pre.reverse e.fab e.node := by
+  intro g hne
+  have ht : Timed pre.reverse g := by
+    have := timed_run pre [] GStore.empty timed_empty (by simp [keys, GStore.empty]) (by simpa using hlen)
+    simpa using this
+  obtain ⟨v, hv, hmin, _⟩ := lruIdx_spec g.entries hne
+  refine ⟨v, hv, ?_⟩
+  intro e he hk
+  have hvm : v ∈ g.entries := List.mem_of_getElem? hv
+  obtain ⟨i, hi⟩ := List.getElem?_of_mem he
+  have h1 := hmin i e hi
+  have sv := ht.stamp v hvm
+  have se := ht.stamp e he
+  rw [← sv.1, ← se.1]
+  rcases Nat.lt_or_ge v.lastUsed e.lastUsed with hlt | hge
+  · exact hlt
+  · exfalso
+    have heq : v.lastUsed = e.lastUsed := by omega
+    have := lastSeen_inj pre.reverse v.fab v.node e.fab e.node (by rw [← sv.1]; exact sv.2)
+      (by rw [← sv.1, ← se.1]; exact heq)
+    exact hk ⟨this.1.symm, this.2.symm⟩
+
+/-- Non-vacuity: a full store after 16 senders; the victim is the first one heard. -/
+example : (storeRun GStore.empty ((List.range 16).map fun i => ((1 : Nat), i, (7 : Nat)))).1.entries ≠ [] := by
+  decide
+
+/-! ## Unsecured sessions, whole histories -/
+
+/-- representation invariant of an unsecured session's window w.r.t. the current epoch:
+bit `i` (for positions that exist, `i + 1 ≤ max`) is set iff `max − i − 1` was accepted in this
+epoch or lies below the restart point. -/
+structure PInv (s : RxState) (p : PSpec) : Prop where
+  unsynced : s.synced = false → p.acc = []
+  maxIn : s.synced = true → s.max ∈ p.acc
+  le : ∀ a ∈ p.acc, a ≤ s.max
+  ge : ∀ a ∈ p.acc, p.floor ≤ a
+  bits : s.synced = true → ∀ i, i < 16 → i + 1 ≤ s.max →
+    (s.bitmap.testBit i = true ↔ ((s.max - (i + 1)) ∈ p.acc ∨ s.max - (i + 1) < p.floor))
+
+theorem pinv_init : PInv RxState.unsynced PSpec.init := by
+  refine ⟨fun _ => rfl, ?_, ?_, ?_, ?_⟩
+  · intro h; simp [RxState.unsynced] at h
+  · intro a h; simp [PSpec.init] at h
+  · intro a h; simp [PSpec.init] at h
+  · intro h; simp [RxState.unsynced] at h
+
+theorem isRestart_false_of_le (p : PSpec) (c m : Nat) (hle : ∀ a ∈ p.acc, a ≤ m) (h : m ≤ c + L) :
+    p.isRestart c = false := by
+  simp only [PSpec.isRestart, List.any_eq_false, decide_eq_true_eq]
+  intro a ha; have := hle a ha; omega
+
+theorem isRestart_true_of_mem (p : PSpec) (c a : Nat) (ha : a ∈ p.acc) (h : c + L < a) :
+    p.isRestart c = true := by
+  simp only [PSpec.isRestart, List.any_eq_true, decide_eq_true_eq]
+  exact ⟨a, ha, h⟩
+
+theorem plain_old_unsec (s : RxState) (c : Nat) (h : s.synced = true) (hc : c < s.max)
+    (hw : ¬ s.max - c ≤ L) :
+    postRecvPlain s c false = ({ s with max := c, bitmap := 0xffff }, true) := by
+  have h1 : c ≠ s.max := by omega
+  have h2 : ¬ c > s.max := by omega
+  simp [postRecvPlain, h, h1, h2, hw]
+
+theorem acc_ne_nil_isEmpty {l : List Nat} {x : Nat} (h : x ∈ l) : l.isEmpty = false := by
+  cases l with
+  | nil => simp at h
+  | cons a l => rfl
+
+/-- one step: the model's verdict is the specification's, and the invariant is preserved -/
+theorem plain_step_refines (s : RxState) (p : PSpec) (c : Nat) (h : PInv s p) :
+    (postRecvPlain s c false).2 = specPlainAccept p c ∧
+    PInv (postRecvPlain s c false).1 (specPlainNext p c (postRecvPlain s c false).2) := by
+  cases hs : s.synced with
+  | false =>
+    have hacc := h.unsynced hs
+    rw [plain_unsynced s c false hs]
+    refine ⟨by simp [specPlainAccept, hacc], ?_⟩
+    simp only [specPlainNext, hacc, Bool.not_true, Bool.false_eq_true, ↓reduceIte, List.isEmpty_nil]
+    refine ⟨by simp, by simp, by simp, by simp, ?_⟩
+    intro _ i hi hle
+    simp only at hle
+    simp only [Nat.zero_testBit, Bool.false_eq_true, List.mem_singleton, Nat.not_lt_zero, or_false,
+      false_iff]
+    omega
+  | true =>
+    have hmax := h.maxIn hs
+    have hne := acc_ne_nil_isEmpty hmax
+    have hfl : p.floor ≤ s.max := h.ge _ hmax
+    rcases Nat.lt_trichotomy c s.max with hlt | heq | hgt
+    · by_cases hw : s.max - c ≤ L
+      · -- behind, inside the window
+        rw [plain_win s c false hs hlt hw]
+        have hnr := isRestart_false_of_le p c s.max h.le (by omega)
+        rw [L_eq] at hw
+        have hb := h.bits hs (s.max - c - 1) (by omega) (by omega)
+        have hval : s.max - (s.max - c - 1 + 1) = c := by omega
+        rw [hval] at hb
+        unfold inWindow
+        by_cases ht : s.bitmap.testBit (s.max - c - 1) = true
+        · rw [if_pos ht]
+          have : (!p.acc.contains c && decide (p.floor ≤ c)) = false := by
+            rcases hb.1 ht with hin | hlo
+            · simp [hin]
+            · simp only [Bool.and_eq_false_imp, Bool.not_eq_true', decide_eq_false_iff_not]
+              intro _; omega
+          refine ⟨by simp only [specPlainAccept, hne, hnr, this, Bool.or_self], ?_⟩
+          simpa [specPlainNext] using h
+        · rw [if_neg ht]
+          have hnin : c ∉ p.acc := fun hin => ht (hb.2 (Or.inl hin))
+          have hge : p.floor ≤ c := by
+            have : ¬ c < p.floor := fun hh => ht (hb.2 (Or.inr hh))
+            omega
+          refine ⟨by simp [specPlainAccept, hne, hnr, hnin, hge], ?_⟩
+          simp only [specPlainNext, Bool.not_true, Bool.false_eq_true, ↓reduceIte, hne, hnr]
+          refine ⟨by intro hh; simp [hs] at hh, by intro _; simp [hmax], ?_, ?_, ?_⟩
+          · intro a ha
+            simp only [List.mem_cons] at ha
+            rcases ha with ha | ha
+            · simp only; omega
+            · exact h.le a ha
+          · intro a ha
+            simp only [List.mem_cons] at ha
+            rcases ha with ha | ha
+            · simp only; omega
+            · exact h.ge a ha
+          · intro _ i hi hle
+            simp only at hle
+            simp only [tb_ins, Bool.or_eq_true, decide_eq_true_eq, List.mem_cons]
+            have hbi := h.bits hs i hi hle
+            constructor
+            · rintro (hb' | heq)
+              · rcases hbi.1 hb' with t | t
+                · left; right; exact t
+                · right; exact t
+              · left; left; omega
+            · rintro ((heq | hin) | hlo)
+              · right; omega
+              · left; exact hbi.2 (Or.inl hin)
+              · left; exact hbi.2 (Or.inr hlo)
+      · -- behind, outside the window: a restart of the peer's counter
+        rw [plain_old_unsec s c hs hlt hw]
+        have hr := isRestart_true_of_mem p c s.max hmax (by omega)
+        refine ⟨by simp [specPlainAccept, hr], ?_⟩
+        simp only [specPlainNext, Bool.not_true, Bool.false_eq_true, ↓reduceIte, hne, hr]
+        refine ⟨by intro hh; simp [hs] at hh, by simp, by simp, by simp, ?_⟩
+        intro _ i hi hle
+        simp only at hle
+        have : (0xffff : Nat) = 2 ^ 16 - 1 := by decide
+        simp only [this, Nat.testBit_two_pow_sub_one, hi, decide_true, List.mem_singleton, true_iff]
+        right; omega
+    · subst heq
+      rw [plain_eq s false hs]
+      have hnr := isRestart_false_of_le p s.max s.max h.le (by omega)
+      refine ⟨by simp [specPlainAccept, hne, hnr, hmax], ?_⟩
+      simpa [specPlainNext] using h
+    · rw [plain_fwd s c false hs hgt]
+      have hnr := isRestart_false_of_le p c s.max h.le (by omega)
+      have hnot : c ∉ p.acc := fun hm => by have := h.le c hm; omega
+      refine ⟨by simp [specPlainAccept, hne, hnr, hnot]; omega, ?_⟩
+      simp only [specPlainNext, Bool.not_true, Bool.false_eq_true, ↓reduceIte, hne, hnr]
+      have hbits := h.bits hs
+      unfold forward
+      rw [L_eq]
+      by_cases hd : c - s.max ≤ 16
+      · rw [if_pos hd]
+        refine ⟨by intro hh; simp [hs] at hh, by intro _; simp, ?_, ?_, ?_⟩
+        · intro a ha
+          simp only [List.mem_cons] at ha
+          rcases ha with ha | ha
+          · simp [ha]
+          · have := h.le a ha; simp only; omega
+        · intro a ha
+          simp only [List.mem_cons] at ha
+          rcases ha with ha | ha
+          · simp only; omega
+          · exact h.ge a ha
+        · intro _ i hi hle
+          simp only at hle
+          simp only [tb_shift _ _ _ hi, Bool.or_eq_true, Bool.and_eq_true, decide_eq_true_eq,
+            List.mem_cons]
+          constructor
+          · rintro (⟨hge, hb⟩ | heq)
+            · have := (hbits (i - (c - s.max)) (by omega) (by omega)).1 hb
+              have h2 : c - (i + 1) = s.max - (i - (c - s.max) + 1) := by omega
+              rw [h2]
+              rcases this with t | t
+              · left; right; exact t
+              · right; exact t
+            · left; right
+              have h2 : c - (i + 1) = s.max := by omega
+              rw [h2]; exact hmax
+          · rintro ((heq | hin) | hlo)
+            · omega
+            · by_cases hlt : i + 1 < c - s.max
+              · have := h.le _ hin; omega
+              · by_cases he : i + 1 = c - s.max
+                · right; omega
+                · left
+                  refine ⟨by omega, ?_⟩
+                  apply (hbits (i - (c - s.max)) (by omega) (by omega)).2
+                  left
+                  have h2 : s.max - (i - (c - s.max) + 1) = c - (i + 1) := by omega
+                  rw [h2]; exact hin
+            · by_cases hlt : i + 1 < c - s.max
+              · omega
+              · by_cases he : i + 1 = c - s.max
+                · right; omega
+                · left
+                  refine ⟨by omega, ?_⟩
+                  apply (hbits (i - (c - s.max)) (by omega) (by omega)).2
+                  right; omega
+      · rw [if_neg hd]
+        refine ⟨by intro hh; simp [hs] at hh, by intro _; simp, ?_, ?_, ?_⟩
+        · intro a ha
+          simp only [List.mem_cons] at ha
+          rcases ha with ha | ha
+          · simp [ha]
+          · have := h.le a ha; simp only; omega
+        · intro a ha
+          simp only [List.mem_cons] at ha
+          rcases ha with ha | ha
+          · simp only; omega
+          · exact h.ge a ha
+        · intro _ i hi hle
+          simp only at hle
+          simp only [Nat.zero_testBit, Bool.false_eq_true, false_iff, List.mem_cons, not_or]
+          refine ⟨⟨by omega, fun hin => ?_⟩, by omega⟩
+          have := h.le _ hin; omega
+
+/-- an unsecured session over a history of received counters: the verdict per message -/
+def runP : RxState → List Nat → List Bool
+  | _, [] => []
+  | s, c :: cs => (postRecvPlain s c false).2 :: runP (postRecvPlain s c false).1 cs
+
+/-- the same history through the set-based specification with the restart rule -/
+def specPlainRun : PSpec → List Nat → List Bool
+  | _, [] => []
+  | p, c :: cs => specPlainAccept p c :: specPlainRun (specPlainNext p c (specPlainAccept p c)) cs
+
+/-- the epoch state of the specification after a history -/
+def specPlainState : PSpec → List Nat → PSpec
+  | p, [] => p
+  | p, c :: cs => specPlainState (specPlainNext p c (specPlainAccept p c)) cs
+
+theorem runP_refines (cs : List Nat) : ∀ (s : RxState) (p : PSpec), PInv s p →
+    runP s cs = specPlainRun p cs := by
+  induction cs with
+  | nil => intro s p _; rfl
+  | cons c cs ih =>
+    intro s p h
+    have hs := plain_step_refines s p c h
+    simp only [runP, specPlainRun]
+    rw [hs.1]
+    congr 1
+    have := ih _ _ hs.2
+    rw [hs.1] at this
+    exact this
+
+/-- **Unsecured sessions, every history**: a fresh unsecured session answers exactly like the
+set-based specification with the restart rule. -/
+theorem unsecured_is_spec (cs : List Nat) : runP RxState.unsynced cs = specPlainRun PSpec.init cs :=
+  runP_refines cs _ _ pinv_init
+
+/-- the specification never demands anything the code does not do: wherever the property speaks
+(`specPlainDemand = some b`) the verdict is `b`. -/
+theorem plain_meets_demand (p : PSpec) (c : Nat) (b : Bool) (h : specPlainDemand p c = some b) :
+    specPlainAccept p c = b := by
+  unfold specPlainDemand at h
+  unfold specPlainAccept
+  by_cases h1 : p.acc.isEmpty = true
+  · simp only [h1, ↓reduceIte, Option.some.injEq] at h; simp [h1, ← h]
+  · simp only [h1, Bool.false_eq_true, ↓reduceIte] at h
+    by_cases h2 : p.isRestart c = true
+    · simp only [h2, ↓reduceIte, Option.some.injEq] at h; simp [h2, ← h]
+    · simp only [h2, Bool.false_eq_true, ↓reduceIte] at h
+      by_cases h3 : p.acc.contains c = true
+      · simp only [h3, ↓reduceIte, Option.some.injEq] at h
+        simp only [h1, h2, h3, Bool.or_self, Bool.not_true, Bool.false_and, ← h]
+      · simp only [h3, Bool.false_eq_true, ↓reduceIte] at h
+        by_cases h4 : c < p.floor
+        · simp [h4] at h
+        · simp only [h4, ↓reduceIte, Option.some.injEq] at h
+          have : p.floor ≤ c := by omega
+          have h3' : p.acc.contains c = false := by simpa using h3
+          simp only [h1, h2, h3', Bool.or_self, Bool.not_false, Bool.true_and, Bool.false_or, this,
+            decide_true, ← h]
+
+/-- Restart clause: a value more than the window below a value accepted in the current epoch is
+accepted and starts a new epoch. -/
+theorem plain_restart_accepted (p : PSpec) (c a : Nat) (ha : a ∈ p.acc) (h : c + L < a) :
+    specPlainAccept p c = true ∧ specPlainNext p c true = { floor := c, acc := [c] } := by
+  have hr := isRestart_true_of_mem p c a ha h
+  have hne := acc_ne_nil_isEmpty ha
+  exact ⟨by simp [specPlainAccept, hr], by simp [specPlainNext, hne, hr]⟩
+
+/-- Clause 1 between two restarts: a value accepted in the current epoch is not accepted again,
+unless it is itself a restart (more than the window below a value accepted since). -/
+theorem plain_no_double_accept (p : PSpec) (c : Nat) (hc : c ∈ p.acc) (hn : p.isRestart c = false) :
+    specPlainAccept p c = false := by
+  have hne := acc_ne_nil_isEmpty hc
+  simp [specPlainAccept, hne, hn, hc]
+
+/-- Clause 3: a value greater than every value accepted in the current epoch is accepted. -/
+theorem plain_newer_accepted (p : PSpec) (c : Nat) (hwf : ∀ a ∈ p.acc, p.floor ≤ a)
+    (h : ∀ a ∈ p.acc, a < c) : specPlainAccept p c = true := by
+  cases hacc : p.acc with
+  | nil => simp [specPlainAccept, hacc]
+  | cons a l =>
+    have ha : a ∈ p.acc := by rw [hacc]; simp
+    have h1 := hwf a ha
+    have h2 := h a ha
+    have hnot : c ∉ p.acc := fun hm => by have := h c hm; omega
+    rw [hacc] at hnot
+    have : p.floor ≤ c := by omega
+    simp only [specPlainAccept, hacc, List.isEmpty_cons, Bool.false_or, Bool.or_eq_true,
+      Bool.and_eq_true, Bool.not_eq_true', decide_eq_true_eq]
+    right
+    exact ⟨by simpa using hnot, this⟩
+
+/-- Clause 4: an in-window value not accepted yet in this epoch and not below the restart point
+is accepted (exactly once, by `plain_no_double_accept`). -/
+theorem plain_in_window_once (p : PSpec) (c : Nat) (hn : c ∉ p.acc) (hf : p.floor ≤ c) :
+    specPlainAccept p c = true := by
+  simp only [specPlainAccept, Bool.or_eq_true, Bool.and_eq_true, Bool.not_eq_true',
+    decide_eq_true_eq]
+  right; exact ⟨by simpa using hn, hf⟩
+
+/-- well-formedness of the epoch state, preserved along every history -/
+def PWF (p : PSpec) : Prop := p.acc.Nodup ∧ ∀ a ∈ p.acc, p.floor ≤ a
+
+theorem specPlainNext_wf (p : PSpec) (c : Nat) (h : PWF p) :
+    PWF (specPlainNext p c (specPlainAccept p c)) := by
+  unfold specPlainNext
+  cases hv : specPlainAccept p c with
+  | false => simpa using h
+  | true =>
+    simp only [Bool.not_true, Bool.false_eq_true, ↓reduceIte]
+    by_cases h1 : p.acc.isEmpty = true
+    · simp [h1, PWF]
+    · simp only [h1, Bool.false_eq_true, ↓reduceIte]
+      by_cases h2 : p.isRestart c = true
+      · simp [h2, PWF]
+      · simp only [h2, Bool.false_eq_true, ↓reduceIte]
+        simp only [specPlainAccept, h1, h2, Bool.or_self, Bool.false_or, Bool.and_eq_true,
+          Bool.not_eq_true', decide_eq_true_eq] at hv
+        refine ⟨?_, ?_⟩
+        · simp only [List.nodup_cons]; exact ⟨by simpa using hv.1, h.1⟩
+        · intro a ha
+          simp only [List.mem_cons] at ha
+          rcases ha with ha | ha
+          · rw [ha]; exact hv.2
+          · exact h.2 a ha
+
+/-- **Accepted at most once between two restarts, every history**: after any history the values
+accepted since the last restart (the first message, if there was none) are pairwise distinct and
+none lies below the restart point. -/
+theorem plain_epoch_accepted_once (cs : List Nat) : ∀ p : PSpec, PWF p → PWF (specPlainState p cs) := by
+  induction cs with
+  | nil => intro p h; exact h
+  | cons c cs ih => intro p h; exact ih _ (specPlainNext_wf p c h)
+
+theorem plain_epoch_accepted_once_fresh (cs : List Nat) : PWF (specPlainState PSpec.init cs) :=
+  plain_epoch_accepted_once cs _ ⟨by simp [PSpec.init], by simp [PSpec.init]⟩
+
+/-- Non-vacuity: first message, in-window first-timer, duplicate, restart (far below), the value
+just below the restart point (treated as received -- the property is silent there), a value above
+it, a duplicate of the restart value, and a second restart. -/
+example : runP RxState.unsynced [100, 99, 99, 50, 49, 51, 50, 10] =
+    [true, true, false, true, false, true, false, true] := by decide
+example : specPlainDemand (specPlainState PSpec.init [100, 99, 99, 50]) 49 = none := by decide
+example : specPlainState PSpec.init [100, 99, 99, 50, 49, 51] = { floor := 50, acc := [51, 50] } := by
+  decide
+
+/-! ## Group store: how a tracking period ends -/
+
+theorem track_unique (es : List GEntry) (f n : Nat) (e v : GEntry) (hnd : (keys es).Nodup)
+    (he : track es f n = some e) (hv : v ∈ es) (hk : v.fab = f ∧ v.node = n) : v = e := by
+  induction es with
+  | nil => simp at hv
+  | cons a es ih =>
+    simp only [keys, List.map_cons, List.nodup_cons] at hnd
+    unfold track at he
+    simp only [List.mem_cons] at hv
+    by_cases ha : a.fab = f ∧ a.node = n
+    · simp only [ha, and_self, ↓reduceIte, Option.some.injEq] at he
+      rcases hv with hv | hv
+      · rw [hv, he]
+      · exfalso; apply hnd.1
+        have := mem_keys_of_mem hv
+        rw [hk.1, hk.2, ← ha.1, ← ha.2] at this; exact this
+    · simp only [ha, ↓reduceIte] at he
+      rcases hv with hv | hv
+      · exfalso; apply ha; rw [← hv]; exact hk
+      · exact ih hnd.2 he hv
+
+/-- **A tracking period ends only by LRU eviction**: if a tracked sender `(f, n)` is no longer
+tracked after a message, that message came from another, untracked sender, the store was full,
+and `(f, n)`'s entry was the one at `lruIdx` -- the first entry of minimal `lastUsed`
+(`lruIdx_spec`), i.e. the least recently heard sender (`evicted_is_least_recently_heard`). -/
+theorem tracking_ends_only_by_lru_eviction (g : GStore) (f n f' n' c : Nat) (e : GEntry)
+    (hnd : (keys g.entries).Nodup) (he : track g.entries f n = some e)
+    (hlost : track (g.postRecv f' n' c).1.entries f n = none) :
+    ¬ (f' = f ∧ n' = n) ∧ track g.entries f' n' = none ∧
+      Consts.maxGroupCtrEntries ≤ g.entries.length ∧ g.entries[lruIdx g.entries]? = some e := by
+  by_cases hk : f' = f ∧ n' = n
+  · obtain ⟨rfl, rfl⟩ := hk
+    obtain ⟨_, e', he', _⟩ := (store_step_own g f' n' c).1 e he
+    rw [he'] at hlost; simp at hlost
+  · rcases store_step_other g f n f' n' c hk hnd with h | h
+    · rw [h, he] at hlost; simp at hlost
+    · obtain ⟨_, h2, h3, v, hv, hvk⟩ := h
+      refine ⟨hk, h2, h3, ?_⟩
+      rw [hv, track_unique g.entries f n e v hnd he (List.mem_of_getElem? hv) hvk]
+
+/-! ## Non-vacuity of the hypotheses of the whole-history theorems -/
+
+/-- `tracking_ends_only_by_lru_eviction`: a full store (16 senders), sender (1,0) tracked and heard
+longest ago; a 17th, untracked sender evicts exactly it. -/
+example :
+    let g := (storeRun GStore.empty ((List.range 16).map fun i => ((1 : Nat), i, (7 : Nat)))).1
+    (keys g.entries).Nodup ∧ (track g.entries 1 0).isSome ∧
+      track (g.postRecv 2 0 9).1.entries 1 0 = none ∧ lruIdx g.entries = 0 := by decide
+
+/-- `store_no_double_accept`: the cycle bound holds on a concrete period that rolls over. -/
+example : (runG (gInit 4294967293) [4294967293] (own 1 0 [(1, 0, 2), (2, 5, 2), (1, 0, 4294967294), (1, 0, 2)])).1.P
+    - (4294967293 + U32) < U32 := by decide
+
+/-- `plain_restart_accepted`, `plain_no_double_accept`, `plain_newer_accepted`, `plain_in_window_once`:
+their hypotheses on the epoch state reached by `100, 99, 50, 52`. -/
+example :
+    let p := specPlainState PSpec.init [100, 99, 50, 52]
+    p = { floor := 50, acc := [52, 50] } ∧ (52 ∈ p.acc ∧ 10 + L < 52) ∧
+      (50 ∈ p.acc ∧ p.isRestart 50 = false) ∧ (∀ a ∈ p.acc, p.floor ≤ a) ∧ (∀ a ∈ p.acc, a < 60) ∧
+      (51 ∉ p.acc ∧ p.floor ≤ 51) := by decide
+
 end C04
